@@ -36,7 +36,8 @@ inductive Tr : Book → Book → Prop
   /-- weight / throughput / parked / trusted bookkeeping -/
   | misc {b b'} : CoreEq b b' → Tr b b'
   /-- a tip that failed validation is dropped together with its index entry -/
-  | drop {b} (v : Vertex) : v ∈ b.verts → Tr b ((b.deleteVertex v.hash).indexRemove v.trx.hash)
+  | drop {b} (v : Vertex) : v ∈ b.verts → b.isLeaf v.hash = true →
+      Tr b ((b.deleteVertex v.hash).indexRemove v.trx.hash)
   /-- a new vertex is inserted with edges from (some of) its declared, live parents -/
   | insert {b} (v : Vertex) (es : List (Hash × Hash)) : InsertOK b v →
       (∀ e ∈ es, e.2 = v.hash ∧ (e.1 = v.left ∨ e.1 = v.right) ∧ b.hasVertex e.1 = true ∧ e.1 ≠ v.hash) →
@@ -64,38 +65,39 @@ theorem coreEq_updateWT (b : Book) (w : UInt64) : CoreEq b (b.updateWT w) := by
 
 /-! ### dropping a tip -/
 
-theorem steps_dropTip (b : Book) (v : Vertex) (hv : v ∈ b.verts) (w : UInt64) :
+theorem steps_dropTip (b : Book) (v : Vertex) (hv : v ∈ b.verts) (hl : b.isLeaf v.hash = true) (w : UInt64) :
     Steps b (((b.deleteVertex v.hash).indexRemove v.trx.hash).updateWT w) :=
-  Steps.tail (Steps.single (Tr.drop v hv)) (Tr.misc (coreEq_updateWT _ w))
+  Steps.tail (Steps.single (Tr.drop v hv hl)) (Tr.misc (coreEq_updateWT _ w))
 
 /-! ### getValidLeaves -/
 
-theorem steps_visitTip (st : GVL) (v : Vertex) (hv : v ∈ st.book.verts) : Steps st.book (visitTip st v).book := by
+theorem steps_visitTip (st : GVL) (v : Vertex) (hv : v ∈ st.book.verts) (hl : st.book.isLeaf v.hash = true) :
+    Steps st.book (visitTip st v).book := by
   unfold visitTip
   split
-  · exact steps_dropTip _ v hv _
+  · exact steps_dropTip _ v hv hl _
   · split <;> exact Steps.refl _
 
-theorem steps_getValidLeaves (b : Book) (order : List Hash) : Steps b (b.getValidLeaves order).book := by
-  unfold getValidLeaves
-  suffices h : ∀ (st : GVL), Steps b st.book →
-      Steps b (order.foldl (fun (st : GVL) h =>
-        if st.left.isSome && st.right.isSome then st else
-        match st.book.getVertex h with
-        | none => st
-        | some v => visitTip st v) st).book from h _ (Steps.refl b)
-  induction order with
-  | nil => intro st h; exact h
-  | cons x xs ih =>
-    intro st h
-    simp only [List.foldl_cons]
-    apply ih
-    split
-    · exact h
-    · split
-      · exact h
-      · rename_i v hv
-        exact h.trans (steps_visitTip st v (getVertex_mem hv).1)
+theorem steps_gvlStep (st : GVL) (h : Hash) : Steps st.book (gvlStep st h).book := by
+  unfold gvlStep
+  split
+  · exact Steps.refl _
+  · split
+    · exact Steps.refl _
+    · rename_i v hv
+      split
+      · rename_i hl
+        obtain ⟨hm, hh⟩ := getVertex_mem hv
+        exact steps_visitTip st v hm (by rw [hh]; exact hl)
+      · exact Steps.refl _
+
+theorem steps_foldGvl (order : List Hash) (st : GVL) : Steps st.book (order.foldl gvlStep st).book := by
+  induction order generalizing st with
+  | nil => exact Steps.refl _
+  | cons x xs ih => simp only [List.foldl_cons]; exact (steps_gvlStep st x).trans (ih _)
+
+theorem steps_getValidLeaves (b : Book) (order : List Hash) : Steps b (b.getValidLeaves order).book :=
+  steps_foldGvl order { book := b }
 
 end CModel.Book
 
@@ -133,8 +135,10 @@ structure PreInsert (b : Book) (v : Vertex) : Prop where
   vok : v.vok = true
   freshCp : b.cpHasVertex v.hash = false
 
-theorem steps_insertLinked (b : Book) (v : Vertex) (ps : List Hash) (pre : PreInsert b v)
-    (hps : ∀ p ∈ ps, p = v.left ∨ p = v.right) : Steps b (insertLinked b v ps).1 := by
+theorem steps_insertLinked (b : Book) (v : Vertex) (pre : PreInsert b v) :
+    Steps b (insertLinked b v [v.left, v.right]).1 := by
+  have hps : ∀ p ∈ [v.left, v.right], p = v.left ∨ p = v.right := by
+    intro p hp; simpa using hp
   unfold insertLinked
   split
   · exact Steps.refl _
@@ -252,12 +256,8 @@ theorem steps_createLeaf (b : Book) (trx : Trx) (o1 o2 : List Hash) (tip : Verte
         canon := by rw [htrx]; simpa using hcan
         vok := hvok
         freshCp := by simpa [cpHasVertex, f4] using hfresh }
-      have hins := steps_insertLinked b1 tip [l.hash, (r.getD l).hash] pre (by
-        intro p hp
-        simp only [List.mem_cons, List.mem_nil_iff, or_false] at hp
-        rcases hp with rfl | rfl
-        · exact Or.inl hleft.symm
-        · exact Or.inr hright.symm)
+      have hins := steps_insertLinked b1 tip pre
+      rw [hleft, hright] at hins
       split <;> (rename_i heq2; rw [heq2] at hins; exact hb1.trans hins)
 
 /-! ### addLeafMemorized / AddLeaf / retry -/
@@ -275,9 +275,9 @@ theorem coreEq_park {b b' : Book} {v : Vertex} {r : Nat} (h : b.park v r = some 
 theorem steps_checkParents (b : Book) (leaf : Vertex) (rep : Nat) (hs : List Hash) (acc : List Vertex)
     (hg : AddGuards b leaf) :
     Steps b (checkParents b leaf rep hs acc).1 ∧
-    ∀ vs, (checkParents b leaf rep hs acc).2 = .ok vs → ∀ x ∈ vs, x ∈ acc ∨ x.hash ∈ hs := by
+    (∀ vs, (checkParents b leaf rep hs acc).2 = .ok vs → vs.map (·.hash) = acc.map (·.hash) ++ hs) := by
   induction hs generalizing b acc with
-  | nil => exact ⟨Steps.refl _, fun vs h x hx => by simp [checkParents] at h; subst h; exact Or.inl hx⟩
+  | nil => exact ⟨Steps.refl _, fun vs h => by simp [checkParents] at h; subst h; simp⟩
   | cons h hs ih =>
     unfold checkParents
     split
@@ -288,26 +288,17 @@ theorem steps_checkParents (b : Book) (leaf : Vertex) (rep : Nat) (hs : List Has
     · rename_i existing hex
       obtain ⟨hmem, hhash⟩ := getVertex_mem hex
       split
-      · split
-        · exact ⟨Steps.single (Tr.drop existing hmem), fun vs h => by cases h⟩
+      · rename_i hlf
+        split
+        · exact ⟨Steps.single (Tr.drop existing hmem (by rw [hhash]; exact hlf)), fun vs h => by cases h⟩
         · obtain ⟨s, hv⟩ := ih (b.updateWT existing.weight) (acc ++ [existing]) (by unfold AddGuards; rw [updateWT_loaded]; exact hg)
           refine ⟨(Steps.single (Tr.misc (coreEq_updateWT _ _))).trans s, ?_⟩
-          intro vs hvs x hx
-          rcases hv vs hvs x hx with h1 | h1
-          · rcases List.mem_append.1 h1 with h2 | h2
-            · exact Or.inl h2
-            · simp only [List.mem_cons, List.mem_nil_iff, or_false] at h2
-              subst h2; exact Or.inr (by simp [hhash])
-          · exact Or.inr (List.mem_cons_of_mem _ h1)
+          intro vs hvs
+          rw [hv vs hvs]; simp [hhash]
       · obtain ⟨s, hv⟩ := ih b (acc ++ [existing]) hg
         refine ⟨s, ?_⟩
-        intro vs hvs x hx
-        rcases hv vs hvs x hx with h1 | h1
-        · rcases List.mem_append.1 h1 with h2 | h2
-          · exact Or.inl h2
-          · simp only [List.mem_cons, List.mem_nil_iff, or_false] at h2
-            subst h2; exact Or.inr (by simp [hhash])
-        · exact Or.inr (List.mem_cons_of_mem _ h1)
+        intro vs hvs
+        rw [hv vs hvs]; simp [hhash]
 
 theorem steps_addLeafMemorized (b : Book) (leaf : Vertex) (rep : Nat) (hg : AddGuards b leaf) :
     Steps b (b.addLeafMemorized leaf rep).1 := by
@@ -319,11 +310,11 @@ theorem steps_addLeafMemorized (b : Book) (leaf : Vertex) (rep : Nat) (hg : AddG
   split; · exact Steps.refl _
   split; · exact Steps.refl _
   rename_i hvok
-  obtain ⟨scp, hvs⟩ := steps_checkParents b leaf rep [leaf.left, leaf.right] [] hg
+  obtain ⟨scp, hvm⟩ := steps_checkParents b leaf rep [leaf.left, leaf.right] [] hg
   split
   · rename_i b1 e heq; rw [heq] at scp; exact scp
   · rename_i b1 validated heq
-    rw [heq] at scp hvs
+    rw [heq] at scp hvm
     obtain ⟨f1, f2, f3, f4, _⟩ := scp.frame
     have pre : PreInsert b1 leaf := {
       loaded := by rw [f1]; exact hg.1
@@ -337,12 +328,11 @@ theorem steps_addLeafMemorized (b : Book) (leaf : Vertex) (rep : Nat) (hg : AddG
         have := hex.2
         unfold cpHasVertex at this ⊢
         rw [f4]; exact this }
-    have hins := steps_insertLinked b1 leaf (validated.map (·.hash)) pre (by
-      intro p hp
-      obtain ⟨x, hx, rfl⟩ := List.mem_map.1 hp
-      rcases hvs validated rfl x hx with h | h
-      · cases h
-      · simpa using h)
+    have hmap : validated.map (·.hash) = [leaf.left, leaf.right] := by
+      have := hvm validated rfl
+      simpa using this
+    have hins := steps_insertLinked b1 leaf pre
+    rw [← hmap] at hins
     split <;> (rename_i heq2; rw [heq2] at hins; exact scp.trans hins)
 
 theorem steps_addLeaf (b : Book) (leaf : Vertex) : Steps b (b.addLeaf leaf).1 := by
